@@ -90,6 +90,19 @@ func content(n, pat int) []byte {
 		}
 		return out
 	}
+	if pat == 5 || pat == 6 {
+		// texts a formatter or a decoder could take for something else: verbs and
+		// escapes; a byte-order mark in front
+		u := "100% sure %s %d %% %!v(MISSING) \\n \\x00 {{.}} $1 "
+		if pat == 6 {
+			u = "\xEF\xBB\xBFtitle \xEF\xBB\xBF "
+		}
+		out := make([]byte, n)
+		for i := range out {
+			out[i] = u[i%len(u)]
+		}
+		return out
+	}
 	b := make([]byte, n)
 	for i := range b {
 		switch pat {
@@ -128,7 +141,7 @@ func texts(part, parts int) {
 	ls := lengths()
 	for li := part; li < len(ls); li += parts {
 		n := ls[li]
-		for pat := 0; pat < 5; pat++ {
+		for pat := 0; pat < 7; pat++ {
 			p := content(n, pat)
 			for _, tc := range textCtors {
 				ctx.Eval()
